@@ -4,6 +4,7 @@ package c18
 import (
 	"bytes"
 	"fmt"
+	"math"
 	"strconv"
 	"strings"
 	"sync/atomic"
@@ -31,6 +32,18 @@ import (
 type PSpec = protobuf.ResourceSpec[v1alpha1.LabelTerm, *v1alpha1.LabelTerm]
 
 type pExt struct{}
+
+// zeroTime in a plan stands for the zero time.Time (a timestamp which was never set), which is outside the range
+// of nanoseconds since the epoch.
+const zeroTime = math.MinInt64
+
+func planTime(ns int64) time.Time {
+	if ns == zeroTime {
+		return time.Time{}
+	}
+
+	return time.Unix(0, ns).UTC()
+}
 
 func (pExt) ResourceDefinition() meta.ResourceDefinitionSpec {
 	return meta.ResourceDefinitionSpec{Type: "C18Proto", DefaultNamespace: "n1"}
@@ -163,8 +176,8 @@ func Gen(t *rapid.T) Plan {
 		Ver:    rapid.SampledFrom([]string{"undefined", "0", "1", "2", "2147483648", "9223372036854775807"}).Draw(t, "ver"),
 		Phase:  rapid.IntRange(0, 1).Draw(t, "phase"),
 		Labels: genKV(t, "labels"), Annos: genKV(t, "annos"),
-		Created: rapid.SampledFrom([]int64{0, 1, 1_000_000_000, 1_700_000_000_123_456_789, 1_700_000_000_000_000_000, 4_000_000_000_000_000_000, -1}).Draw(t, "created"),
-		Updated: rapid.SampledFrom([]int64{0, 999_999_999, 1_700_000_001_500_000_000, 2_000_000_000_000_000_000}).Draw(t, "updated"),
+		Created: rapid.SampledFrom([]int64{zeroTime, 0, 1, 1_000_000_000, 1_700_000_000_123_456_789, 1_700_000_000_000_000_000, 4_000_000_000_000_000_000, -1}).Draw(t, "created"),
+		Updated: rapid.SampledFrom([]int64{zeroTime, 0, 999_999_999, 1_700_000_001_500_000_000, 2_000_000_000_000_000_000}).Draw(t, "updated"),
 	}
 
 	nf := rapid.IntRange(0, 6).Draw(t, "nfins")
@@ -215,8 +228,8 @@ func (m MD) build(typ string) resource.Metadata {
 		md.Annotations().Set(k, v)
 	}
 
-	md.SetCreated(time.Unix(0, m.Created).UTC())
-	md.SetUpdated(time.Unix(0, m.Updated).UTC())
+	md.SetCreated(planTime(m.Created))
+	md.SetUpdated(planTime(m.Updated))
 
 	return md
 }
